@@ -382,6 +382,24 @@ func inspectMain(dir, scriptPath, oplogPath, outPath string) {
 	if g := sizeAfter1 - len(disk0["equipment-reports.dat"]); g > 0 {
 		in.count("restart_reappended_reports")
 	}
+	// ... and a third one: the load path itself appends to the reports file, so
+	// every restart works on a directory the previous one has changed
+	in.stage("close2b")
+	if err := e.Close(); err != nil {
+		in.note("close after second restart: %v", err)
+	}
+	in.stage("start2b")
+	if err := startSettled(e); err != nil {
+		in.viol("third-restart-failed:"+in.normErr(err), "the third consecutive start on the directory failed: %v (reports file: %d bytes after the crash, %d after the first restart)", err, len(disk0["equipment-reports.dat"]), sizeAfter1)
+		in.save()
+		return
+	}
+	in.stage("oracle2b")
+	if d := persistedDiff(S1, e.S.VerifSnapshot(true)); len(d) > 0 {
+		in.viol("third-restart-differs:"+joinSorted(d), "the third consecutive restart changed sections %v", d)
+	} else {
+		in.count("third_restart_same")
+	}
 
 	// (d), (e) the recovered server is usable
 	in.stage("probes")
